@@ -159,6 +159,9 @@ def judge_doc(case):
 
 def judge_collection(case):
     docs = case['docs']
+    if case.get('order'):
+        # file names / keys / list positions in another order than the message IDs
+        docs = [docs[i] for i in case['order'] if i < len(docs)] + docs[len(case['order']):]
     fails = []
     d = _work()
     paths = []
@@ -320,6 +323,7 @@ def shard(args):
         def colls(draw):
             c = draw(colgen.collection(min_msgs=1, max_msgs=6, faults='some', rich=True))
             return {'docs': c['docs'], 'page_size': draw(st.integers(1, 4)),
+                    'order': list(draw(gen.permutation(range(len(c['docs']))))) if draw(st.booleans()) else None,
                     'key_style': draw(st.sampled_from(KEY_STYLES))}
 
         def three(case):
